@@ -205,12 +205,12 @@ def run(ctx):
 
 
 # ---------------------------------------------------------------------- WINDOW / IDXSPACE
-def window_rule(ctx, syn):
+def window_rule(ctx, syn, rid="C07.WINDOW"):
     """the text-search iterators keep their window's end: after a hit only the begin of `self.offset` moves.
     A new offset whose end is anything but the previous `self.offset.end` lets the search run past the end of
     the selection it was asked to search."""
     from synq import find, unparse, strip, walk
-    r = ctx.rule("C07.WINDOW", "every re-assignment of a search iterator's offset keeps the previous end (`self.offset.end`): the search never leaves the selection it was given")
+    r = ctx.rule(rid, "every re-assignment of a search iterator's offset keeps the previous end (`self.offset.end`): the search never leaves the selection it was given")
     n = 0
     for f in syn.fns:
         if f.file != "src/api/text.rs" or f.body is None or f.name != "next":
